@@ -114,16 +114,16 @@ def parseObs (op : Op) (outs : List (List String)) : Option Obs :=
   | _, _ => none
 
 /-- The clause of C19 a rejected observation belongs to (stable key of the failure's shape). -/
-def failKey (op : Op) (ob : Obs) : String :=
+def failKey (st : S) (op : Op) (ob : Obs) : String :=
   let rkey (o : RObs) : String := match o.stat with
     | .panic => "panic" | .stuck => "stuck" | .item _ => "item" | .err .toobig => "overflow"
     | .err _ => "lost" | .pending => "lost" | _ => "state"
   let wkey (o : WObs) : String := match o.stat with
     | .panic => "panic" | .done => (if o.err = .nil then "flush" else "wire") | .pending => "wire" | _ => "state"
   match ob with
-  | .r o => s!"codec.{opName op}.{rkey o}"
-  | .w o => s!"codec.{opName op}.{wkey o}"
-  | .wr w r => s!"codec.pump.{wkey w}-{rkey r}"
+  | .r o => s!"codec.read.{rkey o}"
+  | .w o => s!"codec.write.{wkey o}"
+  | .wr w r => if (pumpWrite st w).isNone then s!"codec.write.{wkey w}" else s!"codec.read.{rkey r}"
   | .ok => s!"codec.{opName op}"
 
 structure Group where
@@ -185,7 +185,7 @@ def checkWith {σ : Type} (sc : Driver.Script) (m0 : σ)
             match step st op ob with
             | some st' => s := some st'
             | none =>
-              res := { res with specFail := some (g.last, s!"key={failKey op ob} op=[{showOp op}] obs=[{showObs ob}] rejected by the frame-stream monitor (unparsed input={showHex st.inb}, front={match front st.limit st.inb with | .item p _ => "item " ++ showHex p | .incomplete => "incomplete" | .tooBig => "tooBig"}, rejected={st.rejected}, eof={st.eof}, rpend={st.rpend}, cap={st.cap}, owed={showHex st.owed}, wpend={st.wpend})") }
+              res := { res with specFail := some (g.last, s!"key={failKey st op ob} op=[{showOp op}] obs=[{showObs ob}] rejected by the frame-stream monitor (unparsed input={showHex st.inb}, front={match front st.limit st.inb with | .item p _ => "item " ++ showHex p | .incomplete => "incomplete" | .tooBig => "tooBig"}, rejected={st.rejected}, eof={st.eof}, rpend={st.rpend}, cap={st.cap}, owed={showHex st.owed}, wpend={st.wpend})") }
               s := none
           | none => pure ()
   return res
